@@ -10,6 +10,7 @@ C15 driver.  One request per line:
          | (block <id> <ft> <nIn> (outs n…) 0|1 <tree>)
          | (limit <id> <ft> <limit> <offset> <tree>)
          | (join <id> <ft> <nL> <nR> (outs n…) <tree> <tree>)
+         | (mjoin <id> <ft> <nL> <nR> (outs n…) <tree> <tree>)      merge join: interleaved reads
   ft   ::= none | (error k) | (panic k)
   act  ::= (s m) | d | a | r | c
 
@@ -59,6 +60,11 @@ partial def tree? (s : Sexp) : Option (Plan Ck) :=
     match nat? id, ft? ft, nat? nL, nat? nR, nats? outs, tree? l, tree? r with
     | some id, some ft, some nL, some nR, some outs, some l, some r =>
       some (.binary ft (joinOp id nL nR outs) l r)
+    | _, _, _, _, _, _, _ => none
+  | .list [.atom "mjoin", id, ft, nL, nR, outs, l, r] =>
+    match nat? id, ft? ft, nat? nL, nat? nR, nats? outs, tree? l, tree? r with
+    | some id, some ft, some nL, some nR, some outs, some l, some r =>
+      some (.mjoin ft (mergeJoinOp id nL nR outs) (nL + nR + 8) l r)
     | _, _, _, _, _, _, _ => none
   | _ => none
 
